@@ -58,6 +58,9 @@ func modelCheck(o *op, r obs) error {
 		return nil // the argument does not fit the child's int (32-bit build)
 	}
 	desc := opString(o)
+	if o.Kind == "sleep" {
+		return nil
+	}
 	if r.Panic != "" {
 		return failf("model panic "+o.Kind, "%s panicked: %s", desc, r.Panic)
 	}
@@ -237,6 +240,8 @@ func opString(o *op) string {
 		return fmt.Sprintf("MnemonicToSeed(%+q, %+q)", clip(string(o.Text)), clip(string(o.Pass)))
 	case "string":
 		return fmt.Sprintf("Language(%d).String()", o.Lang)
+	case "sleep":
+		return fmt.Sprintf("[%d s without any call]", o.N)
 	}
 	return o.Kind
 }
